@@ -19,7 +19,33 @@ CRON_TRUSTED = [
     "the informer is the harness's synchronous SharedIndexInformer: cache updated at the op, handler delivery is a separate op; client-go's real informer is not exercised",
 ]
 
+JOB_TRUSTED = [
+    "Pods are abstracted to (name, index hash, retry, creation, controller-owned, phase, OOM flag, deletionTimestamp, status.startTime, container start/finish time); reason/message strings and container states beyond these are not modelled (compared only as controller-set reasons PendingTimeout/ForceDeleted/JobDeleted)",
+    "times are whole seconds in the job world (metav1.Time precision)",
+    "index hashes (parallel.HashIndex) are inputs of the job model; their generation and distinctness is C14",
+]
+
 PROPS = {
+    "C10": {
+        "props_file": "Props/C10.v",
+        "theorems": ["c10_success_sound", "c10_failed_sound", "c10_exclusive", "c10_decided_iff_complete", "c10_finished_no_live", "c10_succeeded_real"],
+        "families": [{"name": "jobpure", "n_quick": 1500, "n_thorough": 60000}, {"name": "jobsync", "n_quick": 120, "n_thorough": 3000, "optional": True}],
+        "rule": "jobpure: generated (parallelism shape none/count/keys/matrix, strategy, maxAttempts, kill/deletion/admission-error flags, per-index attempt histories with every outcome incl. OOM, pre-recorded kills, flapping Pods, lost Pods, stored refs lagging the Pods, unsorted refs) evaluated by the real GenerateTaskRefs/UpdateJobTaskRefs/UpdateJobStatusFromTaskRefs/ComputeMissingIndexesForCreation; non-trivial = at least one ref or Pod; distinct by (shape, #refs, #pods, phase). jobsync: histories of the real reconciler (see C08)",
+        "trusted": JOB_TRUSTED,
+        "assumptions": ["refs whose index hash is not an index of the spec are outside c10_finished_no_live"],
+        "level_text": "Theorems for all ref lists: Success/Failed soundness w.r.t. the strategy read back index by index, exclusivity, decided<->complete, finished => no recorded task without finish time, Pod->result mapping; tied to parallel.GetParallelStatus/job.GetCondition/GetPhase/GetTaskRef by the jobpure stream and to the reconciler by the jobsync stream; history-level clauses (does reach the result; no Pod alive at the finishing write) are judged by the jobsync monitor against the simulated kubelet's ground truth.",
+        "level_note": "Trusted: Coq kernel + vm_compute; index hashes are an oracle here (C14); the harness.",
+    },
+    "C11": {
+        "props_file": "Props/C11.v",
+        "theorems": ["c11_state_and_phase", "c11_phase_terminal_iff_finished", "c11_counters", "c11_tasks_never_dropped", "c11_times_never_cleared", "c11_times_kept_when_pod_gone"],
+        "families": [{"name": "jobpure", "n_quick": 1500, "n_thorough": 60000}, {"name": "jobsync", "n_quick": 120, "n_thorough": 3000, "optional": True}],
+        "rule": "as C10; the jobsync monitor compares every stored Job version with its predecessor (startTime, finished condition, createdTasks, recorded timestamps)",
+        "trusted": JOB_TRUSTED,
+        "assumptions": [],
+        "level_text": "Theorems: state = condition and phase terminal <=> finished for every computed status (after the fix 5264e9a also for deleting Jobs); counters = task list; refs never dropped, recorded times never cleared by any merge. Pairwise monotonicity over stored versions (startTime, finished stays finished) is judged on histories by the jobsync monitor.",
+        "level_note": "Trusted: as C10.",
+    },
     "C01": {
         "props_file": "Props/C01.v",
         "theorems": ["c01_get_next_least", "c01_fires_of_exact", "c01_population", "c01_tick_terminates_and_spec", "c01_sound_never_early", "c01_once_ordered", "c01_complete_or_capped", "c01_never_more_than_cap", "c01_resumes_from_present"],
